@@ -107,7 +107,14 @@ def run(ctx):
                 kw = dict(step=step, method=meth)
                 if use_bounds:
                     kw['bounds'] = (lo, hi)
-                J = nds.Jacobian(f, **kw)(x, scale_arg)
+                jobj = nds.Jacobian(f, **kw)
+                if rng.random() < 0.5:
+                    # the same object is used first with another extra argument (and, half of the time, at another point)
+                    jobj(x if rng.random() < 0.5 else x + 0.125 * (hi - lo > 1), rng.uniform(2, 3)) if not use_bounds else jobj(x, rng.uniform(2, 3))
+                    del pts[:]
+                    rep['object_reused'] = True
+                J = jobj(x, scale_arg)
+                ctx.keep('nd_scipy.Jacobian', J, **rep)
         except Exception as ex:
             ctx.violation('nd_scipy.Jacobian raised %r' % ex, **rep)
             continue
